@@ -43,6 +43,10 @@ type c07Case struct {
 	CaptureAlt    bool             `json:"capture_alternate_pages"`
 	DisableAssets bool             `json:"disable_assets_capture"`
 	Doc           verifgen.HTMLDoc `json:"doc"`
+	// Via: the page was reached through redirects - Via[0] is the seed's URL, Via[1:] the intermediate hops. The page's
+	// requisites then go through the real preprocessor pass on the whole tree (seed -> hops -> page -> assets) instead of
+	// a bare NormalizeURL(child, page).
+	Via []verifgen.WFAbs `json:"via,omitempty"`
 }
 
 // c07Seen is one URL that left the stage, in the forms the oracle looks at.
@@ -55,6 +59,7 @@ type c07Seen struct {
 }
 
 type c07Result struct {
+	ViaURLs  []string  `json:"via_urls,omitempty"` // canonical URLs of the seed and the hops before the page
 	PageURL  string    `json:"page_url"`
 	Body     string    `json:"body"`
 	Assets   []c07Seen `json:"assets"`
@@ -103,9 +108,51 @@ func c07Run(t veriflib.TB, c c07Case) c07Result {
 	}
 	item := models.NewItem("c07-page", page, "")
 	item.SetStatus(models.ItemArchived)
+	var seed *models.Item
+	if len(c.Via) > 0 {
+		// the tree a redirected seed has when its target page comes back from the archiver
+		var parent *models.Item
+		for i, v := range c.Via {
+			u := &models.URL{Raw: v.Text(), Hops: c.Hops, Redirects: i}
+			if err := preprocessor.NormalizeURL(u, nil); err != nil {
+				t.Fatalf("C07 harness: well-formed URL %q rejected: %v", v.Text(), err)
+			}
+			res.ViaURLs = append(res.ViaURLs, u.String())
+			n := models.NewItem(fmt.Sprintf("c07-via%d", i), u, "")
+			if parent == nil {
+				seed = n
+			} else if err := parent.AddChild(n, models.ItemGotRedirected); err != nil {
+				t.Fatalf("C07 harness: AddChild: %v", err)
+			}
+			parent = n
+		}
+		page.Redirects = len(c.Via)
+		if err := parent.AddChild(item, models.ItemGotRedirected); err != nil {
+			t.Fatalf("C07 harness: AddChild: %v", err)
+		}
+		item.SetStatus(models.ItemArchived)
+	}
 
-	outItems := postprocessItem(item)
+	outItems := veriflib.CallAs[[]*models.Item](postprocessItem, item)
 
+	if seed != nil {
+		if len(item.GetChildren()) == 0 {
+			// nothing was extracted: the seed goes to the finisher, not through another preprocessor pass
+			return res
+		}
+		preprocessor.VerifPreprocess("0", seed)
+		for _, child := range item.GetChildren() {
+			s := c07Seen{Raw: child.GetURL().Raw}
+			if req := child.GetURL().GetRequest(); req != nil && child.GetStatus() == models.ItemPreProcessed {
+				s.Canon = req.URL.String()
+				s.c07Add(s.Canon)
+			} else {
+				s.Err = "left the preprocessor with status " + child.GetStatus().String() + " and no request"
+			}
+			res.Assets = append(res.Assets, s)
+		}
+		return res
+	}
 	for _, child := range item.GetChildren() {
 		s := c07Seen{Raw: child.GetURL().Raw}
 		u := &models.URL{Raw: child.GetURL().Raw, Hops: child.GetURL().Hops}
@@ -235,6 +282,12 @@ func c07Check(t veriflib.TB, facet string, c c07Case, kinds string) {
 			continue
 		}
 		want, _ := verifgen.HTMLExpect(res.PageURL, p.Ref)
+		if len(c.Via) > 0 {
+			if ex := c07ViaExempt(res, want); ex != "" {
+				classes = append(classes, "exempt:"+ex)
+				continue
+			}
+		}
 		seen := res.Assets
 		what := "requested as an asset"
 		if p.Kind == "outlink" {
@@ -540,4 +593,54 @@ func genC07SameName(t *rapid.T) c07Case {
 
 func TestVerif_C07_SameName(t *testing.T) {
 	c07Facet(t, "C07/same-name", genC07SameName, "")
+}
+
+
+// ---- facet C07/redirected-page -----------------------------------------------------------------------------------
+//
+// "resolved against the page's URL as a browser would" - the page, not the seed: a seed that redirects (once to three
+// times, to another directory, host or scheme) ends on a page whose relative requisites belong below the page's URL.
+// The requisites go through the real preprocessor pass on the whole tree.
+
+// c07ViaExempt: what the preprocessor pass legitimately does not request - a reference that resolves to a bare origin
+// (removed as a false-positive asset) or to a URL the tree already holds (the page itself, the seed, a hop: de-duplicated).
+func c07ViaExempt(res c07Result, want verifref.URLParts) string {
+	if want.Path == "" || want.Path == "/" {
+		return "bare-origin-asset"
+	}
+	wantPairs, _ := verifref.DecodeQuery(want.Query)
+	for _, u := range append(append([]string{}, res.ViaURLs...), res.PageURL) {
+		if p, ok := verifref.SplitURL(u); ok && p.Scheme == want.Scheme && p.Authority == want.Authority && p.Path == want.Path {
+			pairs, _ := verifref.DecodeQuery(p.Query)
+			if verifref.PairsEqual(pairs, wantPairs) {
+				return "already-in-the-tree"
+			}
+		}
+	}
+	return ""
+}
+
+func genC07Redirected(t *rapid.T) c07Case {
+	c := c07Case{Page: verifgen.WFAbsGen(t, "page"), Hops: rapid.IntRange(0, 1).Draw(t, "hops"), CaptureAlt: rapid.Bool().Draw(t, "capalt")}
+	c.MaxHops = c.Hops + 1
+	n := rapid.IntRange(1, 3).Draw(t, "nvia")
+	for i := 0; i < n; i++ {
+		v := verifgen.WFAbsGen(t, fmt.Sprintf("via%d", i))
+		switch rapid.IntRange(0, 3).Draw(t, fmt.Sprintf("viakind%d", i)) {
+		case 0: // same site, another directory
+			v.Scheme, v.Host, v.Port = c.Page.Scheme, c.Page.Host, c.Page.Port
+		case 1: // http -> https upgrade of the same URL shape
+			v.Host, v.Port = c.Page.Host, ""
+			v.Scheme = map[string]string{"http": "https", "https": "http"}[c.Page.Scheme]
+		}
+		// every hop is a URL of its own (a redirect to a URL already in the tree is de-duplicated, never followed)
+		v.Segs = append(append([]string{}, v.Segs...), fmt.Sprintf("hop%d", i))
+		c.Via = append(c.Via, v)
+	}
+	c.Doc = verifgen.HTMLDocGen(t, "doc", verifgen.HTMLOpts{})
+	return c
+}
+
+func TestVerif_C07_RedirectedPage(t *testing.T) {
+	c07Facet(t, "C07/redirected-page", genC07Redirected, "asset")
 }
